@@ -17,6 +17,16 @@ from .runner import Outcome, import_fresh_bisturi
 # ---------------------------------------------------------------------------------------
 POS_MAX = 40
 FILLS = [b".", b".", b".", b"\x00", b"#"]
+# per-run bounds (swarm style): (max ops, max position, chunk lengths, weights)
+PROFILES = [
+    ("small", 12, 40, [1, 2, 3, 4, 5, 6, 0], [6, 6, 6, 4, 2, 2, 3]),
+    ("long", 90, 300, [1, 2, 3, 4, 8, 17, 0], [6, 6, 4, 3, 2, 1, 2]),
+    ("far", 14, (1 << 16) + 7, [1, 2, 3, 9, 33, 150, 0], [5, 4, 3, 2, 2, 1, 2]),
+]
+
+
+def _short(b):
+    return repr(b) if len(b) <= 120 else "<%d bytes, sha %s>" % (len(b), digest(b))
 
 
 class SparseModel:
@@ -39,8 +49,14 @@ class SparseModel:
         self.extent = max(self.extent, p + len(chunk))
 
     def render(self):
-        f = self.fill[0]
-        return bytes(self.cells.get(q, f) for q in range(self.extent))
+        out = []
+        pos = 0
+        for b, e in self.fragments():
+            out.append(self.fill * (b - pos))
+            out.append(bytes(self.cells[q] for q in range(b, e)))
+            pos = e
+        out.append(self.fill * (self.extent - pos))
+        return b"".join(out)
 
     def copy(self):
         m = SparseModel(self.fill)
@@ -61,7 +77,7 @@ class SparseModel:
 
 
 class _Bytes:
-    """unique byte values, never the fill byte"""
+    """byte values that do not repeat within 254 consecutive bytes, never the fill byte"""
 
     def __init__(self, fill):
         self.pool = [b for b in range(1, 256) if b != fill[0]]
@@ -80,8 +96,9 @@ class FragmentsEngine(Engine):
     tiers = {"quick": 60000, "thorough": 12000000}
     chunks = {"quick": 500, "thorough": 20000}
     rule = ("each case is a Chooser-generated history of 1..12 insert/append/extend/cursor-assignment operations on one Fragments "
-            "object or two interleaved live ones (positions 0..40 biased to the edges of existing fragments, chunks of 0..6 unique bytes, fill "
-            "byte drawn), checked step by step against a sparse-array model; distinct = digest of the abstract "
+            "object or two interleaved live ones (profile small: <=12 operations, positions 0..40, chunks 0..6 bytes; long: <=90 operations, "
+            "positions 0..300, chunks <=17; far: positions up to 2^16, chunks <=150; positions biased to the edges of existing fragments, "
+            "fill byte drawn), checked step by step against a sparse-array model; distinct = digest of the abstract "
             "operation list; non-trivial = at least two operations and at least one of them interacts with bytes "
             "already stored (collision, adjacency, hole fit, insert before an existing fragment, empty chunk)")
     assumptions = ["Fragments is driven directly through insert/append/extend/tobytes/current_offset as listed in the "
@@ -93,7 +110,7 @@ class FragmentsEngine(Engine):
     stub_components = []
     expected_probes = ["insert-before-first", "between-adjacent", "exact-fit-hole", "overlap-pred", "overlap-succ",
                        "overlap-both", "empty-at-occupied", "nonempty-over-earlier-empty", "op-after-failed-op",
-                       "backwards-insert", "extend-partial", "two-live-buffers", "cursor-assigned"]
+                       "backwards-insert", "extend-partial", "two-live-buffers", "cursor-assigned", "profile-long", "profile-far"]
 
     def init_worker(self, tree, wdir):
         import_fresh_bisturi(tree)
@@ -101,6 +118,7 @@ class FragmentsEngine(Engine):
 
     # -- generation ------------------------------------------------------------------
     def _position(self, ch, model, L):
+        POS_MAX = self._prof[2]
         runs = model.fragments()
         if runs and ch.chance("pos-near-edge", 5, 8):
             b, e = ch.pick("which-fragment", runs)
@@ -113,7 +131,7 @@ class FragmentsEngine(Engine):
         return ch.draw("pos", POS_MAX + 1)
 
     def _len(self, ch):
-        return [1, 2, 3, 4, 5, 6, 0][ch.weighted("chunk-len", [6, 6, 6, 4, 2, 2, 3])]
+        return self._prof[3][ch.weighted("chunk-len", self._prof[4])]
 
     # -- one run ---------------------------------------------------------------------
     def execute(self, scenario, ch):
@@ -122,6 +140,8 @@ class FragmentsEngine(Engine):
         st = out.stats
         # one buffer, or (a quarter of the runs) two live buffers whose operations interleave: state
         # shared between Fragments objects must show as interference
+        self._prof = PROFILES[ch.weighted("profile", [8, 2, 1])]
+        st["probe:profile-" + self._prof[0]] += 1
         nbuf = 2 if ch.chance("two-buffers", 1, 4) else 1
         bufs = []
         for b in range(nbuf):
@@ -131,7 +151,7 @@ class FragmentsEngine(Engine):
             ev("buffer %d fill=%r" % (b, fill))
         if nbuf == 2:
             st["probe:two-live-buffers"] += 1
-        nops = 1 + ch.draw("n-ops", 12)
+        nops = 1 + ch.draw("n-ops", self._prof[1])
         history = []
         interacting = 0
 
@@ -147,7 +167,7 @@ class FragmentsEngine(Engine):
             cur = f.current_offset
             if before != model.render():
                 return self._finish(out, history, interacting, violation, "C11.render",
-                                    "buffer %d changed while another buffer was operated on: %r, model says %r" % (bi, before, model.render()))
+                                    "buffer %d changed while another buffer was operated on: %s, model says %s" % (bi, _short(before), _short(model.render())))
             if kind == 3:
                 # the way Move / aligned sequences drive the buffer: the cursor is assigned directly, then appended at
                 p = self._position(ch, model, 1)
@@ -209,7 +229,7 @@ class FragmentsEngine(Engine):
                 else:
                     may_stop.append(m.copy())   # raising on an empty chunk is not forbidden
                     m.store(q, c)
-            ev("[%d] %s%r -> %s cursor=%r bytes=%r" % (bi, opdesc[0], opdesc[1:], "raised" if raised else "ok", cur_after, after))
+            ev("[%d] %s%r -> %s cursor=%r bytes=%s" % (bi, opdesc[0], opdesc[1:], "raised" if raised else "ok", cur_after, _short(after)))
             if raised is not None:
                 st["fault:collision-raised"] += 1
                 bufs[bi][3] = True
@@ -220,7 +240,7 @@ class FragmentsEngine(Engine):
                                             opdesc[0], opdesc[1:], str(raised)[:60], sorted(model.cells)))
                 if not ok:
                     return self._finish(out, history, interacting, violation, "C11.failed-op-intact",
-                                        "after the failed %s%r tobytes()=%r, expected %r" % (opdesc[0], opdesc[1:], after, may_stop[-1].render()))
+                                        "after the failed %s%r tobytes()=%s, expected %s" % (opdesc[0], opdesc[1:], _short(after), _short(may_stop[-1].render())))
                 if len(chunks) > 1 and ok[-1].cells != model.cells:
                     st["probe:extend-partial"] += 1
                 model = ok[-1]
@@ -236,13 +256,13 @@ class FragmentsEngine(Engine):
                                         "%s%r left the cursor at %r, expected %r" % (opdesc[0], opdesc[1:], cur_after, p + total))
                 if after != model.render():
                     return self._finish(out, history, interacting, violation, "C11.render",
-                                        "after %s%r tobytes()=%r, model says %r" % (opdesc[0], opdesc[1:], after, model.render()))
+                                        "after %s%r tobytes()=%s, model says %s" % (opdesc[0], opdesc[1:], _short(after), _short(model.render())))
             bufs[bi][1] = model
             out.state_sigs += (digest((tuple(map(tuple, model.fragments())), model.extent)),)
         for bi, (f, model, _, _) in enumerate(bufs):
             if f.tobytes() != model.render():
                 return self._finish(out, history, interacting, violation, "C11.render",
-                                    "at the end buffer %d holds %r, model says %r" % (bi, f.tobytes(), model.render()))
+                                    "at the end buffer %d holds %s, model says %s" % (bi, _short(f.tobytes()), _short(model.render())))
         return self._finish(out, history, interacting, None, None, None)
 
     def _finish(self, out, history, interacting, violation, oracle, detail):
